@@ -135,7 +135,7 @@ func (w *world) oracleC02(usePeriodic bool) {
 		readers = append(readers, "P")
 	}
 	for _, in := range w.insts {
-		if !in.kind.isSum() {
+		if !in.sumLike() {
 			continue
 		}
 		ops := w.opsOf(in)
@@ -722,7 +722,7 @@ func (w *world) oracleC12() {
 					}
 				}
 			}
-			if !in.kind.isSum() {
+			if !in.sumLike() {
 				continue
 			}
 			// placement rule on the cumulative manual reader (its aggregation interval never resets, so
